@@ -172,6 +172,23 @@ Fixpoint vsize (v : value) : nat :=
   | VSet xs | VFrozen xs => S (List.length xs)
   end.
 
+(* path elements: a dict subscript by an atom key, or a sequence index.
+   (Python renders the int key 1 and the index 1 identically: root[1].) *)
+Inductive pkey := PKey (a : atom) | PIdx (i : nat).
+Definition pkey_eqb (a b : pkey) : bool :=
+  match a, b with
+  | PKey x, PKey y => atom_eqb x y
+  | PIdx i, PIdx j => Nat.eqb i j
+  | _, _ => false
+  end.
+Definition path := list pkey.
+Fixpoint path_eqb (p q : path) : bool :=
+  match p, q with
+  | [], [] => true
+  | a :: p', b :: q' => pkey_eqb a b && path_eqb p' q'
+  | _, _ => false
+  end.
+
 (* ---- correspondence rendering (mirrors harness.values.canon) ---- *)
 Local Open Scope string_scope.
 Definition sx_atom (a : atom) : sx :=
@@ -189,6 +206,14 @@ Fixpoint sx_value (v : value) : sx :=
   | VList xs => SL [SA "L"; SL (map sx_value xs)]
   | VTuple xs => SL [SA "T"; SL (map sx_value xs)]
   | VDict kvs => SL [SA "D"; SL (map (fun kv => SL [sx_atom (fst kv); sx_value (snd kv)]) kvs)]
-  | VSet xs => SL [SA "S"; SL (map sx_atom xs)]
-  | VFrozen xs => SL [SA "F"; SL (map sx_atom xs)]
+  (* set iteration order is not an observable: members are rendered sorted *)
+  | VSet xs => SL [SA "S"; SL (sx_sort (map sx_atom xs))]
+  | VFrozen xs => SL [SA "F"; SL (sx_sort (map sx_atom xs))]
   end.
+
+Definition sx_pkey (k : pkey) : sx :=
+  match k with
+  | PKey a => SL [SA "k"; sx_atom a]
+  | PIdx i => SL [SA "x"; sx_nat i]
+  end.
+Definition sx_path (p : path) : sx := SL (map sx_pkey p).
